@@ -580,4 +580,230 @@ theorem run_valid_partial (h : allValidateFirst = true) (k : Kind) (ops : List O
   | cons op r ih =>
       exact ih _ (fun o ho => hops o (by simp [ho])) (step_valid_partial h k s op (hops op (by simp)) hv)
 
+/-! ## expected rewards -/
+
+theorem getD_map_range {α} (n : Nat) (f : Nat → α) (i : Nat) (d : α) (h : i < n) :
+    ((List.range n).map f).getD i d = f i := by
+  simp [List.getD, h]
+
+theorem get2_mk2 (X Y : Nat) (f : Nat → Nat → XRat) (x y : Nat) (hx : x < X) (hy : y < Y) :
+    get2 (mk2 X Y f) x y = f x y := by
+  simp only [get2, mk2]
+  rw [getD_map_range X _ x [] hx, getD_map_range Y _ y _ hy]
+
+theorem get3_mk3 (X Y Z : Nat) (f : Nat → Nat → Nat → XRat) (x y z : Nat) (hx : x < X) (hy : y < Y) (hz : z < Z) :
+    get3 (mk3 X Y Z f) x y z = f x y z := by
+  simp only [get3, mk3]
+  rw [getD_map_range X _ x [] hx, getD_map_range Y _ y [] hy, getD_map_range Z _ z _ hz]
+
+theorem foldl_reward_fin (l : List Nat) (f g : Nat → Rat) (acc : Rat) :
+    l.foldl (fun acc i => xadd acc (xmul (.fin (f i)) (.fin (g i)))) (.fin acc)
+      = .fin (acc + sumQ (l.map fun i => f i * g i)) := by
+  induction l generalizing acc with
+  | nil => simp [sumQ]
+  | cons i r ih =>
+      simp only [List.foldl, List.map, sumQ]
+      have e : xadd (.fin acc) (xmul (.fin (f i)) (.fin (g i))) = .fin (acc + f i * g i) := rfl
+      rw [e, ih]; congr 1; ring
+
+/-- on finite tables the modelled accumulation loop is the expectation `Σ_{s1<S} r(s,a,s1)·T(s,a,s1)` -/
+theorem expReward_fin (S : Nat) (r T : Tab3) (s a : Nat) (rq tq : Nat → Rat)
+    (hr : ∀ s1 < S, get3 r s a s1 = .fin (rq s1)) (hT : ∀ s1 < S, get3 T a s s1 = .fin (tq s1)) :
+    expReward S r T s a = .fin (sumQ ((List.range S).map fun s1 => rq s1 * tq s1)) := by
+  unfold expReward
+  have : ∀ l : List Nat, (∀ i ∈ l, i < S) → ∀ acc,
+      l.foldl (fun acc s1 => xadd acc (xmul (get3 r s a s1) (get3 T a s s1))) acc
+        = l.foldl (fun acc i => xadd acc (xmul (.fin (rq i)) (.fin (tq i)))) acc := by
+    intro l hl
+    induction l with
+    | nil => intro acc; rfl
+    | cons i t ih =>
+        intro acc
+        simp only [List.foldl]
+        rw [hr i (hl i (by simp)), hT i (hl i (by simp))]
+        exact ih (fun j hj => hl j (by simp [hj])) _
+  rw [this _ (fun i hi => List.mem_range.1 hi), foldl_reward_fin]
+  simp
+
+/-- **rewards_are_expected**: after `setRewardFunction(r)` (3D container; never rejected) the exposed R(s,a) is the
+    expectation of the supplied r under the object's CURRENT transition table — exactly for dense storage, and for
+    sparse storage exactly unless its magnitude is at most the tolerance, in which case 0 is stored; T, Ω and the
+    discount are untouched. -/
+theorem rewards_are_expected (k : Kind) (s : St) (r : Tab3) (x a : Nat) (hx : x < s.S) (ha : a < s.A) :
+    (step k s (.setR3D r)).2 = false ∧
+    get2 (step k s (.setR3D r)).1.R x a = storeR k.base (expReward s.S r s.T x a) ∧
+    (step k s (.setR3D r)).1.T = s.T ∧ (step k s (.setR3D r)).1.Om = s.Om ∧ (step k s (.setR3D r)).1.disc = s.disc := by
+  simp only [step, prog, exec, get2_mk2 _ _ _ _ _ hx ha, and_self]
+
+theorem storeR_close (q : Rat) : ∃ q', storeR .sparse (.fin q) = .fin q' ∧ -tol ≤ q - q' ∧ q - q' ≤ tol := by
+  have e : storeR .sparse (.fin q) =
+      if (!decide ((if q + -0 < 0 then -(q + -0) else q + -0) ≤ tol)) = true then .fin q else .fin 0 := rfl
+  rw [e]
+  have ht := tol_pos
+  by_cases h : (if q + -0 < 0 then -(q + -0) else q + -0) ≤ tol
+  · rw [decide_eq_true h]
+    refine ⟨0, rfl, ?_⟩
+    split_ifs at h with hneg <;> constructor <;> linarith
+  · rw [decide_eq_false h]
+    exact ⟨q, rfl, by linarith, by linarith⟩
+
+theorem setREigen_exact (k : Kind) (s : St) (r : Tab2) :
+    (step k s (.setREigen r)).2 = false ∧ (step k s (.setREigen r)).1.R = r ∧ (step k s (.setREigen r)).1.T = s.T := by
+  simp [step, prog, exec]
+
+/-- accepted tables are the supplied ones: dense storage stores `t[s][a][s1]` at `T[a](s,s1)` exactly -/
+theorem accepted_table_is_supplied (h : allValidateFirst = true) (k : Kind) (s : St) (t : Tab3)
+    (hacc : (step k s (.setT3D t)).2 = false) (a x x1 : Nat) (ha : a < s.A) (hx : x < s.S) (hx1 : x1 < s.S) :
+    get3 (step k s (.setT3D t)).1.T a x x1 = storeP k.base (get3 t x a x1) := by
+  obtain ⟨_, ht3, _⟩ := vf_unpack h
+  simp only [step, prog, ht3, exec_setter_true] at hacc ⊢
+  by_cases hc : okT3D k.base s t = true
+  · simp only [hc, if_true]; exact get3_mk3 _ _ _ _ _ _ _ ha hx hx1
+  · simp [hc] at hacc
+
+/-- … and every accepted row is a distribution (strict for dense storage, `RowW` for sparse storage) -/
+theorem accepted_tables_are_distributions (h : allValidateFirst = true) (k : Kind) (s : St) (t : Tab3)
+    (hacc : (step k s (.setT3D t)).2 = false) : RowsOK (rowP k.base) (step k s (.setT3D t)).1.T := by
+  obtain ⟨_, ht3, _⟩ := vf_unpack h
+  simp only [step, prog, ht3, exec_setter_true] at hacc ⊢
+  by_cases hc' : okT3D k.base s t = true
+  · have hc : check3D s.S s.A s.S t = true := by
+      simp only [okT3D, Bool.and_eq_true] at hc'; exact hc'.1
+    simp only [hc', if_true]
+    apply rowsOK_mk3
+    intro a ha x hx
+    have := (check3D_iff _ _ _ _).1 hc x hx a ha
+    have hst := stored_row k.base _ this
+    simpa [rowOf, List.map_map, Function.comp_def] using hst
+  · simp [hc'] at hacc
+
+/-- when the source re-validates what it stores (`recheckT`, true after fix C06-5), an accepted sparse table has rows
+    within the plain tolerance: the storage threshold can no longer push a row sum away from one -/
+theorem sparse_rows_tight_when_rechecked (h : allValidateFirst = true) (hre : recheckT = true) (ko : Rep) (s : St) (t : Tab3)
+    (hacc : (step ⟨.sparse, ko⟩ s (.setT3D t)).2 = false) :
+    RowsOK (RowDist (-tol) tol) (step ⟨.sparse, ko⟩ s (.setT3D t)).1.T := by
+  obtain ⟨_, ht3, _⟩ := vf_unpack h
+  simp only [step, prog, ht3, exec_setter_true] at hacc ⊢
+  by_cases hc' : okT3D .sparse s t = true
+  · simp only [hc', if_true]
+    simp only [okT3D, hre, Bool.not_true, Bool.false_or, Bool.and_eq_true] at hc'
+    intro m hm row hrow
+    have h2 := hc'.2
+    simp only [checkEigen, List.all_eq_true] at h2
+    exact isProbSparse_sound row (h2 m hm row hrow)
+  · simp [hc'] at hacc
+
+/-! ## constructors -/
+
+theorem sumQ_append (a b : List Rat) : sumQ (a ++ b) = sumQ a + sumQ b := by
+  induction a with
+  | nil => simp [sumQ]
+  | cons x r ih => simp only [List.cons_append, sumQ, ih]; ring
+
+theorem sumQ_indicator (n i : Nat) :
+    sumQ ((List.range n).map fun j => if j = i then (1 : Rat) else 0) = if i < n then 1 else 0 := by
+  induction n with
+  | zero => simp [sumQ]
+  | succ n ih =>
+      rw [List.range_succ, List.map_append, sumQ_append, ih]
+      simp only [List.map, sumQ]
+      by_cases h1 : i < n
+      · have : n ≠ i := by omega
+        have h2 : i < n + 1 := by omega
+        simp [h1, h2, this]
+      · by_cases h3 : n = i
+        · subst h3; simp
+        · have h2 : ¬ i < n + 1 := by omega
+          simp [h1, h2, h3]
+
+theorem identRow_ok (n i : Nat) (h : i < n) : RowS (identRow n i) := by
+  refine ⟨(List.range n).map (fun j => if j = i then (1 : Rat) else 0), ?_, ?_, ?_, ?_⟩
+  · simp only [identRow, List.map_map]
+    apply List.map_congr_left
+    intro j _; simp only [Function.comp]; split_ifs <;> rfl
+  · intro q hq
+    obtain ⟨j, _, rfl⟩ := List.mem_map.1 hq
+    split_ifs <;> norm_num
+  · rw [sumQ_indicator]; simp [h]; exact le_of_lt tol_pos
+  · rw [sumQ_indicator]; simp [h]; exact le_of_lt tol_pos
+
+theorem rowP_of_RowS (r : Rep) {row : List XRat} (h : RowS row) : rowP r row := by
+  cases r with
+  | dense => exact h
+  | sparse => exact h.toW
+
+/-- `Model(s, a, discount)` / `SparseModel(s, a, discount)`: when the constructor validates its discount (after fix
+    C06-2; `ctorChecks` is read from the source) every object it returns is valid, for ALL sizes and discounts. -/
+theorem ctorBasic_valid (k : Rep) (hc : ctorChecks k = true) (hn : discNanSafe = true) (S A : Nat) (d : XRat) (s : St)
+    (h : ctorBasic k S A d = some s) : Valid ⟨k, k⟩ s := by
+  simp only [ctorBasic, hc, Bool.true_and] at h
+  by_cases hg : (discGuard k).eval d = true
+  · simp [hg] at h
+  · have hg' : (discGuard k).eval d = false := by simpa using hg
+    simp only [hg', Bool.false_eq_true, if_false, Option.some.injEq] at h
+    subst h
+    refine ⟨?_, ?_, ?_⟩
+    · show DiscOK d
+      by_cases hnan : d = .nan
+      · subst hnan
+        simp only [discNanSafe, Bool.and_eq_true] at hn
+        cases k <;> simp_all
+      · exact discountOKfinite_sound _ (discGuard_ok k).1 d hnan hg'
+    · intro m hm row hrow
+      simp only [List.mem_map, List.mem_range] at hm
+      obtain ⟨_, _, rfl⟩ := hm
+      simp only [List.mem_map, List.mem_range] at hrow
+      obtain ⟨x, hx, rfl⟩ := hrow
+      exact rowP_of_RowS k (identRow_ok S x hx)
+    · intro m hm; cases hm
+
+/-- FULL STATEMENT: as above without `ctorChecks k = true`.  It is false of the code as first read: -/
+theorem ctorBasic_counterexample (k : Rep) (hc : ctorChecks k = false) :
+    ∃ s, ctorBasic k 1 1 (.fin 2) = some s ∧ ¬ Valid ⟨k, k⟩ s := by
+  simp only [ctorBasic, hc, Bool.false_and, Bool.false_eq_true, if_false]
+  refine ⟨_, rfl, ?_⟩
+  intro hv
+  obtain ⟨q, hq, _, h1⟩ := hv.disc
+  cases hq
+  norm_num at h1
+
+/-- NO_CHECK constructors store what they are given: the object is valid exactly when the arguments are -/
+theorem ctorNoCheck_valid_iff (k : Rep) (S A : Nat) (t : Tab3) (r : Tab2) (d : XRat) :
+    Valid ⟨k, k⟩ (ctorNoCheck S A t r d) ↔ DiscOK d ∧ RowsOK (rowP k) t := by
+  constructor
+  · intro h; exact ⟨h.disc, h.T⟩
+  · rintro ⟨h1, h2⟩; exact ⟨h1, h2, by intro m hm; cases hm⟩
+
+/-! ## conversions between representations -/
+
+/-- **convert_preserves (to dense)**: `MDP::Model(const M&)` from ANY source model seen through the generic interface.
+    If it accepts: the discount is the source's, every transition entry is copied exactly, R(s,a) is the expectation
+    of the source's reward under the copied row, and every row passed the probability test.  Otherwise no object. -/
+theorem copyDense_preserves (m : Src) (s : St) (h : copyDense m = some s) :
+    s.S = m.S ∧ s.A = m.A ∧ s.disc = m.disc ∧ (discGuard .dense).eval m.disc = false ∧
+    (∀ a < m.A, ∀ x < m.S, ∀ x1 < m.S, get3 s.T a x x1 = get3 m.T x a x1) ∧
+    (∀ x < m.S, ∀ a < m.A, get2 s.R x a = expReward m.S m.R s.T x a) ∧
+    RowsOK RowS s.T := by
+  unfold copyDense at h
+  by_cases hg : (discGuard .dense).eval m.disc = true
+  · simp [hg] at h
+  · have hg' : (discGuard .dense).eval m.disc = false := by simpa using hg
+    simp only [hg', Bool.false_eq_true, if_false] at h
+    split at h
+    · rename_i hall
+      simp only [Option.some.injEq] at h
+      subst h
+      refine ⟨rfl, rfl, rfl, hg', ?_, ?_, ?_⟩
+      · intro a ha x hx x1 hx1; exact get3_mk3 _ _ _ _ _ _ _ ha hx hx1
+      · intro x hx a ha; exact get2_mk2 _ _ _ _ _ hx ha
+      · apply rowsOK_mk3
+        intro a ha x hx
+        simp only [List.all_eq_true, List.mem_range] at hall
+        have := hall a ha x hx
+        exact (isProbLoop_iff _).1 (by simpa [srcRow, rowOf] using this)
+    · cases h
+
+example : ((copyDense ⟨1, 1, .fin (1/2), [[[.fin 1]]], [[[.fin 3]]]⟩).map (fun s => get2 s.R 0 0) == some (.fin 3)) = true := by
+  decide +kernel
+
 end AITB.MS
